@@ -281,7 +281,10 @@ def parse_youtube_url(url, fix_common_mistakes=True):
         return YoutubeVideo(id=m.group(1), playlist=list_query)
 
     # Parsing
-    parsed = safe_urlsplit(url)
+    try:
+        parsed = safe_urlsplit(url)
+    except ValueError:
+        return None
 
     if not is_youtube_url(parsed):
         return
